@@ -84,6 +84,11 @@ fn scenario(ctx: &Ctx, idx: u64) -> Report {
                     continue;
                 }
             }
+            let repeat = rng.gen_bool(0.4);
+            bed.world.lock().unwrap().repeat_values = repeat;
+            if repeat {
+                report.count("searches_with_values_repeated_within_one_answer");
+            }
             let served_mark = bed.world.lock().unwrap().served.len();
             let log_mark = bed.net.log_len();
             let result = run_search(&bed.net, &bed.dht, ih, announce, Duration::from_secs(400)).await;
